@@ -17,9 +17,10 @@ def setup(chk, props):
     drv = vlib.build_driver("scn_driver", build, libs=("-lcgreen", "-lxml2"))
     # the functions of src/reporter.c translated whole from the current source, and the proofs that
     # they compute what Runner.v's read_results / base_finish_test / base_finish_suite say
-    chk.prove(props + ["Properties_Code_Reporter.v"])
+    chk.prove(props + ["Properties_Code_Reporter.v", "Properties_Code_Runner.v"])
     chk.cov["trusted_base"] = TRUSTED_C + [
         "tools/srccode.py + clang JSON AST: read_reporter_results(), reporter_finish_test(), reporter_finish_suite() and the notification functions are translated whole (loops included) into CLite programs on every run; coq/CLite.v (the interpreter that gives them meaning) and the refinement proofs of Lemmas_Code_Reporter.v tie Runner.v's model of them to the code",
+        "likewise run_the_test_code(), run_test_in_the_current_process(), run_test_suite(), run_single_test() of src/runner.c and in_child_process(), die_in(), stop() of src/posix_runner_platform.c (Properties_Code_Runner.v): the order of reset / setup / body / teardown / tally / completion that Runner.child_steps assumes is the order of calls of the translated code; external functions are calls recorded in a trace, answering from streams",
         "axioms: see coverage.print_assumptions"]
     import codetie
     chk.code_cases = codetie.reporter_cases(chk)
